@@ -90,7 +90,7 @@ func runC02(c *Ctx, oneByte bool) {
 		d.addObj(c02Kinds[w.Choose(len(c02Kinds))])
 	}
 	d.chain = w.Pick(10, 0, 50)
-	steps := w.Range(6, 60)
+	steps := w.Range(6, c.Deep(60))
 	faultsAllowed := w.Chance(2, 3)
 	for i := 0; i < steps; i++ {
 		o := d.objs[w.Choose(len(d.objs))]
